@@ -74,6 +74,9 @@ struct Hook { s: Arc<Sched>, loads: Arc<AtomicU64> }
 impl SchedHook for Hook {
   fn point(&self, label: &'static str) {
     let s = &self.s;
+    // yield points of other paths (insert / remove / compute / entry / maintenance: the cacheconc tie's
+    // labels) are not scheduling points of the loader protocol: those calls stay atomic here
+    if !(label.starts_with("fetch_with:") || label.starts_with("load:") || label.starts_with("loader:")) { return; }
     if label == "loader:before_load" {
       // a freshly spawned loader thread registers itself; ids follow spawn order because the
       // scheduler lets nobody run until every expected thread has arrived
